@@ -8,6 +8,13 @@ mod engine;
 mod gen;
 mod p01;
 mod p02;
+mod p07;
+mod p08;
+mod p09;
+mod p10;
+mod pipe;
+mod rows;
+mod univ;
 mod rjson;
 mod runner;
 
@@ -20,6 +27,10 @@ fn modules() -> Vec<Module> {
     vec![
         ("C01", p01::run_all, p01::checks),
         ("C02", p02::run_all, p02::checks),
+        ("C07", p07::run_all, p07::checks),
+        ("C08", p08::run_all, p08::checks),
+        ("C09", p09::run_all, p09::checks),
+        ("C10", p10::run_all, p10::checks),
     ]
 }
 
